@@ -140,9 +140,16 @@ fn server_case(rng: &mut Rng, ctx: &mut Ctx, idx: u64) {
         let flag1 = rng.chance(1, 2);
         if flag1 {
             any_flag1 = true;
-            // compress with the announced encoding when there is one, else with anything
-            let e = req_enc.unwrap_or(Enc::Gzip);
-            body.extend(ref_frame(1, &ref_compress(e, &pl)));
+            if req_enc.is_none() && rng.chance(1, 3) {
+                // flagged but empty: there is "nothing to inflate", yet it is still a compressed-flag
+                // message without a negotiated encoding
+                body.extend(ref_frame(1, &[]));
+                ctx.count("srv.flag1_empty_payload");
+            } else {
+                // compress with the announced encoding when there is one, else with anything
+                let e = req_enc.unwrap_or(Enc::Gzip);
+                body.extend(ref_frame(1, &ref_compress(e, &pl)));
+            }
         } else {
             body.extend(ref_frame(0, &pl));
         }
@@ -379,7 +386,8 @@ fn client_case(rng: &mut Rng, ctx: &mut Ctx, _idx: u64) {
     let flag1 = rng.bool();
     let reply = Msg { data: rng.payload_of(&[0usize, 20, 300]), seq: 9, tag: "reply".into() };
     let pl = ref_pb_encode(&reply.data, reply.seq, &reply.tag);
-    let resp_body = if flag1 { ref_frame(1, &ref_compress(resp_enc.unwrap_or(Enc::Deflate), &pl)) } else { ref_frame(0, &pl) };
+    let empty_flag1 = flag1 && rng.chance(1, 3);
+    let resp_body = if empty_flag1 { ref_frame(1, &[]) } else if flag1 { ref_frame(1, &ref_compress(resp_enc.unwrap_or(Enc::Deflate), &pl)) } else { ref_frame(0, &pl) };
     let mut rh = HeaderMap::new();
     if let Some(v) = resp_enc_hdr {
         rh.insert("grpc-encoding", HeaderValue::from_str(v).unwrap());
@@ -466,6 +474,9 @@ fn client_case(rng: &mut Rng, ctx: &mut Ctx, _idx: u64) {
                 if failure != Some(13) {
                     ctx.violation("flag1-without-encoding", format!("response message flagged compressed without negotiated encoding: outcome {:?} (want 13)", failure));
                 }
+            } else if empty_flag1 {
+                // zero bytes are not a valid compressed stream of any encoding: any error is fine
+                ctx.count("cli.flag1_empty_under_encoding");
             } else {
                 if failure.is_some() || view.msgs != vec![reply.clone()] {
                     ctx.violation("valid-response-failed", format!("acceptable response (encoding {:?}, flag {}) gave outcome {:?}, {} messages", eff.map(|e| e.name()), flag1 as u8, failure, view.msgs.len()));
